@@ -571,9 +571,13 @@ class GCProg(SOCProg):
         fgh_idx = [5, 6, 7]
         v_idx = list(range(8, 8 + degree))
 
-        data = [1]
-        row_idx = [0]
-        col_idx = [0]
+        cut_lower, cut_upper = cuts
+
+        # t + exp(cut_lower)*alpha_0 <= y: the part of the cone below the lower
+        # cut contributes exp(cut_lower) per unit, not zero
+        data = [1, np.exp(cut_lower)]
+        row_idx = [0, 0]
+        col_idx = [t_idx, alpha_idx[0]]
         row_count = 1
 
         data += [1]*4
@@ -586,7 +590,6 @@ class GCProg(SOCProg):
         col_idx += [x_idx[1], alpha_idx[1], fgh_idx[0], fgh_idx[2], v_idx[0]]
         row_count += 1
 
-        cut_lower, cut_upper = cuts
         data += [1, -cut_lower, 1, -cut_upper, -1, cut_lower]
         row_idx += list(np.array([0, 0, 1, 1, 2, 2]) + row_count)
         col_idx += [x_idx[0], alpha_idx[0], x_idx[1],
